@@ -304,7 +304,7 @@ def natural_stream(ctx, rep, count):
 def _work(ctx, rep):
     natural_stream(ctx, rep, (400 if ctx.tier == 'quick' else 40000) * ctx.scale // ctx.parts)
     rng = ctx.sub_rng('solve')
-    N = (5000 if ctx.tier == 'quick' else 800000) * ctx.scale // ctx.parts
+    N = (5000 if ctx.tier == 'quick' else 500000) * ctx.scale // ctx.parts
     lines, expect = [], []
     for i in range(N):
         case, kind, span, labels, start, end, fault_at = gen_case(rng)
